@@ -32,8 +32,13 @@ def scratch_base():
     return base
 
 
+class _CaseTimeout(BaseException):
+    pass
+
+
 def _child(payload):
-    fn, case, base = payload
+    fn, case, base = payload[:3]
+    limit = payload[3] if len(payload) > 3 else None
     d = tempfile.mkdtemp(dir=base)
     cwd = os.getcwd()
     os.chdir(d)
@@ -42,9 +47,23 @@ def _child(payload):
         warnings.simplefilter("ignore")
         import io
         import contextlib
+        import signal
+        if limit:
+            # wall-clock budget of ONE case, enforced inside the child: a case that exceeds it is reported as `timeout`
+            # (undecided, never a violation) and does not hold up the other cases
+            def _alarm(signum, frame):
+                raise _CaseTimeout()
+            signal.signal(signal.SIGALRM, _alarm)
+            signal.setitimer(signal.ITIMER_REAL, float(limit))
         buf = io.StringIO()
-        with contextlib.redirect_stdout(buf):
-            return fn(case)
+        try:
+            with contextlib.redirect_stdout(buf):
+                return fn(case)
+        finally:
+            if limit:
+                signal.setitimer(signal.ITIMER_REAL, 0)
+    except _CaseTimeout:
+        return dict(status="timeout", error=f"case exceeded its budget of {limit} s")
     except Exception as exn:
         return dict(status="crash", error=f"{type(exn).__name__}: {exn}", trace=traceback.format_exc()[-1800:])
     finally:
@@ -53,17 +72,18 @@ def _child(payload):
 
 
 def run_cases(fn, cases, procs=16, timeout=600):
-    """fn(case) -> dict(status='ok'|'violated'|'skipped', ...).  Returns list aligned with cases."""
+    """fn(case) -> dict(status='ok'|'violated'|'skipped', ...).  Returns list aligned with cases.
+    timeout: budget per case in seconds (enforced in the child by an interval timer; the parent waits longer as a backstop)."""
     import_repo()
     base = scratch_base()
     try:
         ctx = mp.get_context("fork")
         with ctx.Pool(processes=min(procs, max(1, len(cases))), maxtasksperchild=1) as pool:
-            asyncs = [pool.apply_async(_child, ((fn, c, base),)) for c in cases]
+            asyncs = [pool.apply_async(_child, ((fn, c, base, timeout),)) for c in cases]
             out = []
             for a, c in zip(asyncs, cases):
                 try:
-                    out.append(a.get(timeout=timeout))
+                    out.append(a.get(timeout=timeout * 3 + 120))
                 except mp.TimeoutError:
                     out.append(dict(status="timeout"))
                 except Exception as exn:
